@@ -313,7 +313,7 @@ func init() {
 			"well-formedness is exactly the statement's precondition; optional elements carry the table identifier in Iei (type-1: in the octet's high nibble)",
 			"bounds come from spec/messages.json",
 		},
-		Oracles: map[string]func(*core.Ctx, *core.Case){"roundtrip": c02Roundtrip, "batch": c02Batch, "cold-concurrent": coldConcurrent, "receive-buffer": c03ReceiveBuffer},
+		Oracles: map[string]func(*core.Ctx, *core.Case){"cold-entries": coldEntries, "roundtrip": c02Roundtrip, "batch": c02Batch, "cold-concurrent": coldConcurrent, "receive-buffer": c03ReceiveBuffer},
 	}
 	p.Floors = func(tier string, cov map[string]map[string]int64, cnt map[string]int64) []string {
 		sp, err := codecSpec()
@@ -495,6 +495,7 @@ func init() {
 		// decoding the library's own encodings into a receiver that is used again and again
 		us = append(us, reuseUnits(sp, "receive-buffer", 25, 500)...)
 		us = append(us, coldUnits(tier, "nas.Message", "encode", "decode")...)
+		us = append(us, coldEntryUnits(tier, "nas.Message", "codec")...)
 		return us
 	}
 	core.Register(p)
@@ -571,7 +572,7 @@ func init() {
 		Assumptions: []string{
 			"canonicity is known from the generator (known elements only, each once, in table order, lengths in bounds), never inferred from the library",
 		},
-		Oracles: map[string]func(*core.Ctx, *core.Case){"fixedpoint": c03FixedPoint, "receive-buffer": c03ReceiveBuffer, "cold-concurrent": coldConcurrent},
+		Oracles: map[string]func(*core.Ctx, *core.Case){"cold-entries": coldEntries, "fixedpoint": c03FixedPoint, "receive-buffer": c03ReceiveBuffer, "cold-concurrent": coldConcurrent},
 	}
 	p.Floors = func(tier string, cov map[string]map[string]int64, cnt map[string]int64) []string {
 		sp, err := codecSpec()
@@ -674,6 +675,7 @@ func init() {
 				}
 			}
 		}})
+		us = append(us, coldEntryUnits(tier, "nas.Message", "codec")...)
 		return us
 	}
 	core.Register(p)
